@@ -509,7 +509,9 @@ func ruleMrg1(c *Ctx) []*Ob {
 func ruleMrg3(c *Ctx) []*Ob {
 	o := newObs(c, "MRG-3")
 	getMerged := c.Fn("(*segmentStack).getMerged")
-	reachesFullMerge := func(i ssa.Instruction) bool {
+	var fnReaches func(g *ssa.Function, d int) bool
+	var reachesFullMergeD func(i ssa.Instruction, d int) bool
+	reachesFullMergeD = func(i ssa.Instruction, d int) bool {
 		ci, ok := i.(ssa.CallInstruction)
 		if !ok {
 			return false
@@ -517,8 +519,23 @@ func ruleMrg3(c *Ctx) []*Ob {
 		if ci.Common().IsInvoke() && ci.Common().Method.Name() == "FullMerge" {
 			return true
 		}
-		return ci.Common().StaticCallee() == getMerged
+		g := ci.Common().StaticCallee()
+		if g == getMerged {
+			return true
+		}
+		// a helper that the merge handling was moved into
+		return g != nil && g.Pkg == c.Moss && d < 3 && fnReaches(g, d+1)
 	}
+	fnReaches = func(g *ssa.Function, d int) bool {
+		found := false
+		eachInstr(g, func(j ssa.Instruction) {
+			if !found && reachesFullMergeD(j, d) {
+				found = true
+			}
+		})
+		return found
+	}
+	reachesFullMerge := func(i ssa.Instruction) bool { return reachesFullMergeD(i, 0) }
 	// getMerged itself must call FullMerge
 	hasFM := false
 	eachInstr(getMerged, func(i ssa.Instruction) {
@@ -682,6 +699,211 @@ func ruleEnc5(c *Ctx) []*Ob {
 			}
 			o.add(fn, "segment literal: buf", c.instrPos(a), !nilPossible, why)
 		})
+	}
+	return o.list
+}
+
+func init() {
+	register(&Rule{
+		ID: "MRG-4",
+		Doc: "A merge operand met by a reader is resolved against everything below it: in segmentStack.get and iterator.Current every path from the `op == OperationMerge` edge to a return with a nil " +
+			"error passes a call of segmentStack.getMerged (which looks the key up in the lower segments, base and lower level); and MergeOperator.FullMerge is invoked directly only by getMerged and by " +
+			"iteratorSingle.Current (a single segment with nothing below it). A shortcut that folds the operand onto nil because a neighbouring heap slot holds another key drops the older operands.",
+		Props: []string{"C08", "C10"},
+		Floor: 3,
+		Run:   ruleMrg4,
+	})
+}
+
+func ruleMrg4(c *Ctx) []*Ob {
+	o := newObs(c, "MRG-4")
+	gm := c.Fn("(*segmentStack).getMerged")
+	for _, name := range []string{"(*segmentStack).get", "(*iterator).Current"} {
+		f := c.Fn(name)
+		fn := c.fname(f)
+		res := f.Signature.Results()
+		errIdx := res.Len() - 1
+		n := 0
+		for _, b := range f.Blocks {
+			iff, ok := b.Instrs[len(b.Instrs)-1].(*ssa.If)
+			if !ok {
+				continue
+			}
+			_, eqOnTrue, isT := isOpTest(c, iff.Cond, "OperationMerge")
+			if !isT {
+				continue
+			}
+			n++
+			si := 1
+			if eqOnTrue {
+				si = 0
+			}
+			start := point{b.Succs[si], 0}
+			bad := ""
+			walk(start, walkOpts{noInline: true, visit: func(i ssa.Instruction, t *tracker) bool {
+				if bad != "" {
+					return true
+				}
+				if call, isC := i.(*ssa.Call); isC && call.Call.StaticCallee() == gm {
+					return true
+				}
+				if r, isR := i.(*ssa.Return); isR {
+					if len(r.Results) > errIdx && isNilConst(r.Results[errIdx]) {
+						bad = c.instrPos(i)
+					}
+					return true
+				}
+				return false
+			}})
+			why := "every successful return behind op == OperationMerge passes getMerged"
+			if bad != "" {
+				why = "behind op == OperationMerge a path reaches the successful return at " + bad + " without getMerged: the operand is handed out (or folded onto nil) without the older operands and the base value below it"
+			}
+			o.add(fn, "merge branch resolves through getMerged", c.instrPos(iff), bad == "", why)
+		}
+		if n == 0 {
+			o.add(fn, "merge branch", c.pos(f.Pos()), false, "anchor lost: no OperationMerge test (MRG-3 reports the missing branch)")
+		}
+	}
+	// the lookup below the operand is not narrowed by the library itself
+	fSkip := c.Field("ReadOptions", "SkipLowerLevel")
+	for _, f := range c.Funcs {
+		if c.isHarness(f) {
+			continue
+		}
+		for _, a := range fieldAccesses(f, func(v *types.Var) bool { return v == fSkip }) {
+			if a.Kind == "load" {
+				continue
+			}
+			okk := false
+			if k, isK := a.Val.(*ssa.Const); a.Kind == "store" && isK && k.Value != nil && k.Value.String() == "false" {
+				okk = true
+			}
+			why := "cleared only"
+			if !okk {
+				why = "library code sets ReadOptions.SkipLowerLevel itself: a lookup (or the resolution of a merge operand) stops above the lower level although the caller did not ask for that"
+			}
+			o.add(c.fname(f), "write ReadOptions.SkipLowerLevel", c.instrPos(a.Instr), okk, why)
+		}
+		for _, k := range callsToFn(f, gm) {
+			if len(k.Call.Args) < 4 {
+				continue
+			}
+			seg := k.Call.Args[3]
+			okk, n := true, 0
+			for _, og := range origins(seg) {
+				n++
+				b, isB := og.(*ssa.BinOp)
+				if !isB || b.Op != token.SUB || !isConstInt(b.Y, 1) {
+					okk = false
+				}
+			}
+			why := "the lookup starts at the segment right below the one holding the operand (index - 1)"
+			if !okk || n == 0 {
+				okk = false
+				why = "getMerged's start segment is " + accessPath(seg) + ", not always `index of the operand's segment - 1`: on some path the older operands and the base value in the segments below are not consulted"
+			}
+			o.add(c.fname(f), "getMerged start segment", c.instrPos(k), okk, why)
+		}
+	}
+	// direct FullMerge callers
+	for _, f := range c.Funcs {
+		if c.isHarness(f) {
+			continue
+		}
+		fn := c.fname(f)
+		eachInstr(f, func(i ssa.Instruction) {
+			call, ok := i.(*ssa.Call)
+			if !ok || !call.Call.IsInvoke() || call.Call.Method.Name() != "FullMerge" {
+				return
+			}
+			allowed := fn == "(*segmentStack).getMerged" || fn == "(*iteratorSingle).Current" ||
+				onlyCalledFrom(c, f, map[string]string{"(*segmentStack).getMerged": "", "(*iteratorSingle).Current": ""}, 3) != ""
+			why := "FullMerge is invoked where everything below the operand has been looked up (getMerged) or nothing is below it (iteratorSingle)"
+			if !allowed {
+				why = "FullMerge is invoked directly outside getMerged / iteratorSingle.Current: the existing value handed to it cannot be the fold of everything below the operand"
+			}
+			o.add(fn, "call MergeOperator.FullMerge", c.instrPos(i), allowed, why)
+		})
+	}
+	return o.list
+}
+
+func isConstInt(v ssa.Value, n int64) bool {
+	k, ok := v.(*ssa.Const)
+	return ok && k.Value != nil && k.Value.Kind().String() == "Int" && k.Int64() == n
+}
+
+func init() {
+	register(&Rule{
+		ID: "ORDER-3",
+		Doc: "base replaces the lower level: in segmentStack.get the lookup in ss.lowerLevelSnapshot is reachable only through the `base == nil` edge (the merger passes the in-flight " +
+			"stackDirtyBase as base, which is newer than the lower level the stack was stamped with), and the lookup in base lies behind the scan of the stack's own segments.",
+		Props: []string{"C13", "C08", "C10"},
+		Floor: 1,
+		Run:   ruleOrder3,
+	})
+}
+
+func ruleOrder3(c *Ctx) []*Ob {
+	o := newObs(c, "ORDER-3")
+	f := c.Fn("(*segmentStack).get")
+	fn := c.fname(f)
+	fLL := c.Field("segmentStack", "lowerLevelSnapshot")
+	base := paramNamed(f, "base")
+	if base == nil {
+		o.add(fn, "parameter base", c.pos(f.Pos()), false, "anchor lost: segmentStack.get has no base parameter")
+		return o.list
+	}
+	baseNil := func(from, to *ssa.BasicBlock, cond ssa.Value, onTrue bool) bool {
+		b, ok := cond.(*ssa.BinOp)
+		if !ok || (b.Op != token.EQL && b.Op != token.NEQ) {
+			return false
+		}
+		x, y := b.X, b.Y
+		if isNilConst(x) {
+			x, y = y, x
+		}
+		if !isNilConst(y) || !sameValue(x, base) {
+			return false
+		}
+		return (b.Op == token.EQL) == onTrue
+	}
+	n := 0
+	eachInstr(f, func(i ssa.Instruction) {
+		ci, ok := i.(ssa.CallInstruction)
+		if !ok {
+			return
+		}
+		cc := ci.Common()
+		var recv ssa.Value
+		if cc.IsInvoke() {
+			recv = cc.Value
+		} else if sf := cc.StaticCallee(); sf != nil && sf.Signature.Recv() != nil && len(cc.Args) > 0 {
+			recv = cc.Args[0]
+		}
+		if recv == nil {
+			return
+		}
+		isLL := false
+		for _, og := range origins(recv) {
+			if fv, _ := loadedField(og); fv == fLL {
+				isLL = true
+			}
+		}
+		if !isLL {
+			return
+		}
+		n++
+		ok2 := mustPrecede(f, i, neverInstr, baseNil)
+		why := "the lower level is consulted only when no base was given"
+		if !ok2 {
+			why = "the stack's lowerLevelSnapshot is consulted on a path where base may be non-nil: the merger resolves merge operands against the stale lower level instead of the stack that is being written back, and later hands a wrong value down"
+		}
+		o.add(fn, "lookup in lowerLevelSnapshot", c.instrPos(i), ok2, why)
+	})
+	if n == 0 {
+		o.add(fn, "lookup in lowerLevelSnapshot", c.pos(f.Pos()), false, "anchor lost: segmentStack.get no longer falls back to the lower level")
 	}
 	return o.list
 }
